@@ -101,7 +101,7 @@ class SyncProp(Prop):
             return "SYNC-method-target-without-its-class"
         if src and _function_before(src, kd["name"]):
             return "SYNC-D11-function-before-target"
-        if f["prestate"] == "stale" and k in ("function", "argparse_function"):
+        if f["prestate"] in ("stale", "near") and k in ("function", "argparse_function"):
             return "SYNC-D13-stale-function-target-not-updated"
         return None
 
@@ -238,12 +238,12 @@ class C11(SyncProp):
 
         for k, kd in c["cfg"]["kinds"].items():
             for f in kd["files"]:
-                if f["content"] and f["prestate"] in ("stale", "agreeing", "absent") and r.random() < 0.7:
+                if f["content"] and f["prestate"] in ("stale", "near", "agreeing", "absent") and r.random() < 0.7:
                     rr = random.Random(r.randrange(1 << 30))
                     long_doc = 'def load(path):\n    """\n    Load it.\n\n    %s"""\n    return path\n' % ("w" * rr.randint(96, 112))
                     before = "".join(rr.choice(projgen.OTHER_SRC + ["X: int = 3\n", "class Other(object):\n    def method_name(self, a=1):\n        return a\n"]) for _ in range(rr.randint(0, 2)))
                     simple = kd["name"].split(".")[0]
-                    after = "".join(rr.choice(projgen.OTHER_SRC[1:] + ["def later(value, a=2):\n    return value\n", long_doc] + (["%s = register(%s)\n" % (simple, simple)] if k == "class" and f["prestate"] in ("stale", "agreeing") else [])) for _ in range(rr.randint(0, 2)))
+                    after = "".join(rr.choice(projgen.OTHER_SRC[1:] + ["def later(value, a=2):\n    return value\n", long_doc] + (["%s = register(%s)\n" % (simple, simple)] if k == "class" and f["prestate"] in ("stale", "near", "agreeing") else [])) for _ in range(rr.randint(0, 2)))
                     nl = "" if f["content"].endswith("\n") else "\n"
                     new = before + f["content"] + nl + after
                     if r.random() < 0.3:
@@ -268,7 +268,7 @@ class C11(SyncProp):
                 n = f["name"]
                 if n not in before:
                     continue
-                cls = "C11-module-docstring-reindented" if _has_module_docstring(before[n]) else None
+                cls = None
                 tc = self.target_class(cfg, k, kd, f)
                 if tc in ("SYNC-method-target-without-its-class", "SYNC-D11-function-before-target"):
                     cls = tc
